@@ -184,11 +184,12 @@ theorem byte_model_follows_source_layout :
       Gen.C17.offNumVariablesDefined + 2 ≤ Gen.C17.sizeofProgram ∧ Gen.C17.offNumFunctionsDefined + 2 ≤ Gen.C17.sizeofProgram := by
   decide
 
-/-- non-vacuity: a small image (2 strings, 1 function, no inherits; the counts sit at the real offsets) -/
+/-- non-vacuity: a small image (2 strings, 1 function, no inherits); the program block has the size of `program_t` and the
+    counts sit at the offsets the C compiler reports on this run, the driver id is the one in the source -/
 def sampleImage : BinImage :=
-  let prog : Bytes := (List.replicate 158 0) ++ [1, 0, 2, 0, 0, 0, 0, 0, 0, 0]
-  { magic := [78, 69, 79, 76], driverId := 7, configId := 1000, includes := [104, 46, 104, 0], name := [97, 46, 99],
-    program := prog, inheritNames := [], strings := [[120], [121, 122]], varNames := [], funNames := [[102]],
+  { magic := [78, 69, 79, 76], driverId := Gen.C17.driverId, configId := 1000, includes := [104, 46, 104, 0],
+    name := [97, 46, 99], program := sampleProgram 0 2 0 1, inheritNames := [], strings := [[120], [121, 122]],
+    varNames := [], funNames := [[102]],
     lineInfo := [4, 0, 2, 0], patches := [] }
 
 set_option maxRecDepth 16384 in
